@@ -632,6 +632,7 @@ func c14RunExit(c c14ExitCase) (err error, fired bool) {
 	}()
 	sys := faultsys.New(2)
 	sys.KeepalivePeriod, sys.KeepaliveTimeout, sys.KeepaliveRpcTimeout = 200*time.Millisecond, 2*time.Second, time.Second
+	sys.Relax()
 	opts := []Option{Bigmachine(sys), Parallelism(4), MaxLoad(1.0)}
 	if c.MC {
 		opts = append(opts, MachineCombiners)
